@@ -290,6 +290,11 @@ func (r *WordRenderer) renderInlines(node ast.Node, para *document.Paragraph, fo
 			f.FontColor = "0000FF" // 蓝色
 			r.renderInlines(n, para, f)
 
+		case *ast.AutoLink:
+			// 自动链接（<http://…>、裸URL、邮件地址）没有子节点，其可见文本就是链接本身
+			f.FontColor = "0000FF" // 蓝色
+			para.AddFormattedText(string(n.Label(r.source)), &f)
+
 		case *ast.Image:
 			r.renderImageInline(n, para)
 		case *extast.TaskCheckBox:
@@ -537,6 +542,8 @@ func (r *WordRenderer) extractTextContentRecursive(node ast.Node, buf *strings.B
 		switch n := child.(type) {
 		case *ast.Text:
 			buf.WriteString(r.textOf(n))
+		case *ast.AutoLink:
+			buf.Write(n.Label(r.source))
 		default:
 			r.extractTextContentRecursive(child, buf)
 		}
